@@ -16,10 +16,15 @@ Oracles
            script is back to default answers (op `q`) the FIRST seek to each position of an
            8-point target set, and the read-through after it, behave exactly as on a handle
            that ran the same history without any fault.
-Faults during open that open swallows are logged as observations, not judged (DESIGN C12 S).
+Faults during open that open swallows are logged as observations by the scenario explorer; they are JUDGED by the
+open-API family (pylib/c12_open.py, harness/c12_open.c): every fault schedule of an open through ov_open_callbacks
+and through ov_test_callbacks + ov_test_open, seekable and streaming, with the source clause on both steps, the
+two-step == one-step clause and the "failure surfaces" clause (a hard callback failure during an open makes the
+open fail or has no observable effect).
 """
 import os, sys, json, time, hashlib
 import vlib, zoo, seekgraph
+import c12_open
 from seekgraph import parse_out
 
 PID = 'C12'
@@ -666,6 +671,10 @@ def run(tier):
     singles.update(dev.bound1(rest))
     singles.update(dev.bound1(big))
     dev.confirm_timeouts()
+    # open-API family (bound 1 on every open flavour; thorough: + pairs on the small files).  It has its own time allowance, so that a
+    # deadline cut of the scenario explorer above never removes it, and runs before the deadline-cut bound-2 part.
+    fam = c12_open.run_family(chk, tier, {n: (models[n].path, models[n].meta) for n in ('MT2', 'MT3', 'BIG')},
+                              time.time() + float(os.environ.get('C12_OPEN_DEADLINE_S', 90 if tier == 'quick' else 420)), wd)
     if tier == 'thorough':
         # smallest scenarios first: everything on F1, everything on the 3-link chain, then open / seek scenarios of the two extra files
         small = [s for s in scns if s.fm.name == 'F1' and s.mode == 's']
@@ -677,9 +686,9 @@ def run(tier):
     cls_points = {}
     for s in scns:
         cls_points.setdefault(s.cls + '/' + s.fm.name, []).append(s.N)
-    chk.cov['evaluations'] = rn.executed
+    chk.cov['evaluations'] = rn.executed + fam.executed
     chk.cov.update({
-        'distinct_nontrivial': len(dev.effective),
+        'distinct_nontrivial': len(dev.effective) + len(fam.effective),
         'distinct_outcomes': len(dev.outcomes),
         'rule': 'DEV: every scenario (open; open+read-through; open+read+{ps,pp,rs,ts,tp}x3 targets+read; half-rate+seek; streaming; lapped seeks) is run fault-free to count its N callback '
                 'invocations, then re-run for every k<N x {read 0+EIO, read 0, read 1 byte, seek -1, tell -1} one-shot, and persisting from every k whose callback class matches the fault '
@@ -700,7 +709,7 @@ def run(tier):
         'per_scenario': dev.per_scn if len(dev.per_scn) <= 60 else {k: v for k, v in list(sorted(dev.per_scn.items()))[::max(1, len(dev.per_scn) // 40)]},
         'watchdog_cpu_s': wd,
         'stage_timing_cases_wall_s': dev.timing,
-        'exhaustive': not dev.cut,
+        'exhaustive': not dev.cut and not fam.cut,
         'samples': dev.samples[::max(1, len(dev.samples) // 12)][:12],
     })
     chk.assumptions += [
@@ -718,6 +727,7 @@ def run(tier):
     need = [('open', 'R'), ('open', 'S'), ('open', 'T'), ('rf', 'R'), ('ps', 'R'), ('ps', 'S'), ('pp', 'R'), ('pp', 'S'), ('rs', 'R'), ('rs', 'S'), ('ts', 'S'), ('tp', 'S'), ('PS', 'S'), ('RS', 'R')]
     for phase, fc in need:
         chk.guard(dev.cut or any(p == phase and fc in c for (_, p, c) in ph), 'at least one applied %s-class fault inside %s' % (fc, phase))
+    c12_open.report(fam, chk)
     chk.guard(not dev.machinery, 'executor ran every case (no set-up failure such as a zoo file removed by a concurrent rebuild): %d failures, e.g. %r' % (len(dev.machinery), dev.machinery[:1]))
     chk.guard(not dev.det_errors, 'runs whose deviation was never reached are identical to the fault-free run: %r' % (dev.det_errors[:1],))
     chk.guard(dev.cut or dev.stats['recovery_cases'] > 500, 'recovery clause exercised')
@@ -741,6 +751,10 @@ def run(tier):
 def replay(path):
     rec = json.load(open(path))['replay']
     vlib.build('asan', 'plain')      # plain: the zoo encoder (mkzoo) links against it
+    if rec.get('family') == 'openapi':
+        load('thorough')             # regenerates the zoo files the record points to
+        c12_open.files_for('thorough')
+        return c12_open.replay(rec)
     exe, listfile, models = load('thorough')
     fm = models[rec['file']]
     wd = int(rec.get('timeout', 10))
